@@ -15,7 +15,9 @@ EXTENDS Integers, FiniteSets, Sequences, TLC, Json
 
 WritePaths == {"writer", "writer-appended", "export", "export-filtered", "compress",
                "repack", "condense", "split-part", "join"}
-Corruptions == {"len", "roi", "unknown", "missing", "index", "chcount", "lasers",
+\* "index": the index is a permutation (reversed); "indexoffset": consecutive
+\* values that do not start at 1 (a fragment cut out of a larger file)
+Corruptions == {"len", "roi", "unknown", "missing", "index", "indexoffset", "chcount", "lasers",
                 "samples", "extlink", "flowzero", "pixneg", "chwzero"}
 \* corruptions of the metadata survive a copy of the file - except for the keys
 \* that the writer derives from the data whenever it closes a file (ROI size,
@@ -25,7 +27,7 @@ Class(c) == CASE c = "len" -> "feature length differs from the event count"
               [] c = "roi" -> "image size contradicts the ROI metadata"
               [] c = "unknown" -> "unknown feature"
               [] c = "missing" -> "mandatory metadata missing"
-              [] c = "index" -> "index does not enumerate the events"
+              [] c \in {"index", "indexoffset"} -> "index does not enumerate the events"
               [] c = "chcount" -> "fluorescence channel count contradicts the data"
               [] c = "lasers" -> "laser count contradicts the metadata"
               [] c = "samples" -> "samples per event contradict the trace length"
@@ -56,6 +58,7 @@ Init == /\ path \in WritePaths
         /\ (copied # "no") => corr \subseteq MetaCorruptions
         \* two corruptions of the same key do not both show
         /\ ~({"chwzero", "missing"} \subseteq corr)
+        /\ ~({"index", "indexoffset"} \subseteq corr)
 Next == UNCHANGED <<path, corr, copied, content>>
 
 ExpectedClasses == {Class(c) : c \in corr}
